@@ -441,6 +441,8 @@ class PybindWrapper:
     def wrap_enums(self, enums, instantiated_class, prefix=' ' * 4):
         """Wrap multiple enums defined in a class."""
         cpp_class = instantiated_class.to_cpp()
+        if cpp_class in self.ignore_classes:
+            return ""
         module_var = instantiated_class.name.lower()
         res = ''
 
